@@ -174,6 +174,10 @@ def rescale_cases(draw):
         srcs.append(draw(gen.sources(nf, k=k, logmodels=c['grid']['logflux'], flags=list(flags), ignored='positive')))
     c['sources'] = srcs
     c['factor'] = draw(st.one_of(gen.logfloat(1e-4, 1e4), st.sampled_from([10., 100., 1e-3, 2.])))
+    if draw(st.integers(0, 3)) == 0:
+        # integer photometry multiplied by an integer constant (counts, integer micro-Jansky): stays integer-typed
+        c['sources'] = [gen.integerize(s) for s in c['sources']]
+        c['factor'] = float(draw(st.sampled_from([2, 10, 100, 1000])))
     return c
 
 
@@ -193,7 +197,7 @@ def run_rescale(case, ctx):
                 continue
             scaled = dict(src)
             scaled['flux'] = [v * cfac for v in src['flux']]
-            scaled['err'] = [v * cfac for v in src['err']]
+            scaled['err'] = [v * cfac if f not in (2, 3) else v for f, v in zip(src['flags'], src['err'])]
             t0 = dict(LAST_T)
             conds_for(case, scaled, av_range, '2d')
             LAST_T['T'] = max(LAST_T.get('T', 0.), t0.get('T', 0.))
